@@ -541,19 +541,19 @@ func wiringShapes(op string) []wiringShape {
 	var out []wiringShape
 	switch op {
 	case "Concat":
-		for n0 := 1; n0 <= 3; n0++ {
-			for n1 := 1; n1 <= 3; n1++ {
+		for n0 := 1; n0 <= bound(3, 5); n0++ {
+			for n1 := 1; n1 <= bound(3, 5); n1++ {
 				out = append(out, wiringShape{op: op, n0: n0, n1: n1, m: n0 + n1})
 			}
 		}
 	case "Lshift", "Rshift", "Srshift":
-		for n0 := 1; n0 <= 5; n0++ {
+		for n0 := 1; n0 <= bound(5, 9); n0++ {
 			for c := int64(0); c <= int64(n0)+1; c++ {
 				out = append(out, wiringShape{op: op, n0: n0, m: n0, c1: c, hasC: [4]bool{false, true}})
 			}
 		}
 	case "Slice":
-		for n0 := 1; n0 <= 5; n0++ {
+		for n0 := 1; n0 <= bound(5, 8); n0++ {
 			for from := int64(0); from <= int64(n0); from++ {
 				for to := from + 1; to <= int64(n0)+1; to++ {
 					out = append(out, wiringShape{op: op, n0: n0, m: int(to - from), c1: from, c2: to, hasC: [4]bool{false, true, true}})
@@ -561,13 +561,13 @@ func wiringShapes(op string) []wiringShape {
 			}
 		}
 	case "Mov", "Smov":
-		for n0 := 1; n0 <= 4; n0++ {
-			for m := 1; m <= 5; m++ {
+		for n0 := 1; n0 <= bound(4, 7); n0++ {
+			for m := 1; m <= bound(5, 8); m++ {
 				out = append(out, wiringShape{op: op, n0: n0, m: m})
 			}
 		}
 	case "Amov":
-		for n1 := 2; n1 <= 5; n1++ {
+		for n1 := 2; n1 <= bound(5, 7); n1++ {
 			for from := int64(0); from < int64(n1); from++ {
 				for to := from + 1; to <= int64(n1); to++ {
 					for n0 := 1; n0 <= int(to-from)+1; n0++ {
